@@ -173,6 +173,10 @@ type Resolvable struct {
 	// incremental item. Reset at the start of every batch (ResolveDeferBatch) and
 	// on Init, so it never leaks across defer batches.
 	deferItemDataNull bool
+
+	// deferInitialDataNull records that the initial response was rendered with
+	// "data":null: there is no object left a deferred fragment could be applied to.
+	deferInitialDataNull bool
 }
 
 type TypeNameStats struct {
@@ -265,6 +269,7 @@ func (r *Resolvable) Reset() {
 	r.enableDeferRender = false
 	r.deferIncrementalItemWritten = false
 	r.deferItemDataNull = false
+	r.deferInitialDataNull = false
 }
 
 // initCostControl prepares typeNameStats collection for this walk when cost control is active.
@@ -404,6 +409,8 @@ func (r *Resolvable) Resolve(ctx context.Context, rootData *Object, fetchTree *F
 	if r.authorizationError != nil {
 		return r.authorizationError
 	}
+	// the root object cannot be nulled in r.data, so the anchor check has to be told
+	r.deferInitialDataNull = r.deferMode && hasErrors
 	r.printBytes(lBrace)
 	if r.hasErrors() {
 		r.printErrors()
@@ -624,7 +631,7 @@ func (r *Resolvable) renderPath() {
 // to null in r.data when a non-null child null-propagated, so a dead anchor reads
 // back as null/absent here. An empty path refers to the root data object.
 func (r *Resolvable) deferAnchorAlive(path []string) bool {
-	if r.data == nil {
+	if r.data == nil || r.deferInitialDataNull {
 		return false
 	}
 	v := r.data.Get(path...)
